@@ -10,7 +10,7 @@ use std::collections::BTreeSet;
 use std::sync::atomic::{AtomicU64, Ordering};
 use std::sync::{Arc, Mutex};
 
-const CALLS: [(&str, &str); 16] = [
+const CALLS: [(&str, &str); 18] = [
   ("All", r#"{A: 5, S: "abcz"}"#),
   ("Quote", r#"{A: 500, S: "xyz"}"#),
   ("All", r#"{A: 42, S: "aeiouz"}"#),
@@ -29,6 +29,9 @@ const CALLS: [(&str, &str); 16] = [
   ("Zone", r#"{S: "2021-03-28T01:30:00@Europe/Warsaw"}"#),
   ("Zone", r#"{S: "2021-03-28T12:00:00@Europe/Warsaw"}"#),
   ("Zone", r#"{S: "2021-03-28T12:00:00@America/New_York"}"#),
+  // a decision table none of whose rules matches: the default output entry is an expression over the input
+  ("Def", r#"{A: 5}"#),
+  ("Def", r#"{A: 42}"#),
 ];
 
 fn ctx(text: &str) -> FeelContext {
